@@ -4,6 +4,7 @@ import RbV.Model.ShiftAnd
 import RbV.Model.Horspool
 import RbV.Model.Kmp
 import RbV.Model.Bndm
+import RbV.Model.Bom
 /-! Driver for property C08: exact matchers.
 
 `c08 <matcher> <pattern hex> <t1>/<t2>/… => <l1>/<l2>/…`   one matcher object applied to the texts in turn.
@@ -34,14 +35,18 @@ def verdict (toks : List String) (out : String) : String :=
         let mirrorOk := if m = "shiftand" then texts.map (ShiftAnd.findAll p) == exp
           else if m = "horspool" then texts.map (Horspool.findAll p) == exp
           else if m = "kmp" then texts.map (Kmp.findAll p) == exp
-          else if m = "bndm" then texts.map (Bndm.findAll p) == exp.map some else true
+          else if m = "bndm" then texts.map (Bndm.findAll p) == exp.map some
+          else if m = "bom" then texts.map (Bom.findAll p) == exp else true
         if !mirrorOk then "bad-op mirror-model-disagrees-with-oracle" else
         if exp = outs then
           let nt := p.length ≥ 2 && exp.any (fun l => !l.isEmpty)
           let tags := (if nt then " nt" else "") ++ (if p.length = 64 then " m64" else "")
             ++ (if p.length ≥ 32 then " m>=32" else "") ++ (if texts.length > 1 then " reuse" else "")
             ++ (if exp.any (fun l => l.length ≥ 2) then " multi" else "")
-            ++ (if m != "bom" then " mirror" else "")
+            ++ " mirror"
+            ++ (if m = "bom" then
+                  (if Bom.completeB (Bom.build p) p && Bom.monotoneB (Bom.build p) p.reverse
+                   then " bom-table-ok" else " bom-table-cond-FAILED") else "")
           "ok" ++ tags
         else "diff " ++ "/".intercalate (exp.map showNatList)
       | none => if out.startsWith "PANIC" || out.startsWith "HANG" then "reject " ++ out else "bad-op output"
